@@ -120,6 +120,8 @@ impl<T: AtomicInt> ConcurrentUnionFind<T> {
                         // work for rebuilding.
                         let parent = cmp::min(l, r);
                         let child = cmp::max(l, r);
+                        #[cfg(egglog_verif)]
+                        egglog_concurrency::verif::perturb(40);
                         match buf[T::as_usize(child)].cas(child, parent) {
                             Ok(_) => return (parent, child),
                             Err(_) => continue,
@@ -143,6 +145,8 @@ impl<T: AtomicInt> ConcurrentUnionFind<T> {
         let mut next = load!(cur);
         let mut grand = load!(next);
         while next != grand {
+            #[cfg(egglog_verif)]
+            egglog_concurrency::verif::perturb(41);
             let _ = buf[T::as_usize(cur)].cas(next, grand);
             // This is what the paper calls "two-try" splitting.
             // next = load!(cur);
